@@ -52,6 +52,10 @@ def h_junit(sx):
             shapes[0] = dict(shapes[0], items=[it] + list(shapes[0]["items"][1:]))
         sx.params = dict(p, shapes=shapes)
         extra = {"stdout_capture": True, "stderr_capture": True, "log_capture": True}
+        if p.get("container_skip"):
+            # an after_scenario hook calls feature.skip() / rule.skip() after the k-th scenario (also marks what already ran)
+            from vlib.stage1 import _container_skipper
+            extra.update({"hooks": True, "fault": False, "hook_probe": _container_skipper})
         if p.get("hooks"):
             extra.update({"hooks": True, "fault": True})
             if where == "hook-message":
@@ -290,6 +294,7 @@ def jobs(tier, seed):
     shapes = {
         "2sc": ([F([S(1, rich=True), S(1)])], {"out_dom": {"*": [0, 1]}}, False),
         "3steps": ([F([S(3)], bg=1)], {"out_dom": {"*": [0, 3]}}, False),
+        "skip-midrun": ([F([S(1), S(1), S(1)])], {"out_dom": {"*": [0, 1]}, "undef": False}, False),
         "dry-run": ([F([S(2), S(1)], bg=1)], {"out_dom": {"*": [0, 0]}, "dry_run": "sym"}, False),      # steps may lack a definition
         "outline-rule": ([F([S(1), O(1, [(2, [])]), R([S(1)])]), F([S(1)])], {"out_dom": {"*": [0, 1]}, "stop": "sym"}, False),
         "hooks": ([F([S(1, tags=["t1"]), S(1)], tags=["t0"])], {"out_dom": {"*": [0, 1]}, "undef": False}, True),
@@ -300,7 +305,9 @@ def jobs(tier, seed):
         shapes.update({"2feat-select": ([F([S(1), S(1)]), F([S(2)])], {"out_dom": D, "select": True}, False),
                        "bg": ([F([S(2), R([S(1)], bg=1)], bg=1)], {"out_dom": {"*": [0, 5]}}, False)})
     for name, (sh, opts, hooks) in shapes.items():
-        sub = {} if name == "2sc" else {"hostile_idx": [0], "wheres": ["message"]} if name in ("3steps", "dry-run") else {"hostile_idx": [0, 3, 9], "wheres": ["scenario-name", "message"] + (["hook-message"] if hooks else [])}
+        sub = {} if name == "2sc" else {"hostile_idx": [0], "wheres": ["message"]} if name in ("3steps", "dry-run", "skip-midrun") else {"hostile_idx": [0, 3, 9], "wheres": ["scenario-name", "message"] + (["hook-message"] if hooks else [])}
+        if name == "skip-midrun":
+            sub = dict(sub, container_skip=True)
         js.append(Job("junit.%s" % name, "props.c16:h_junit", dict({"shapes": sh, "opts": opts, "hooks": hooks}, **sub),
                       reach=REACH, min_paths=20, cost=100, validate=40, closure=False))
     return js
